@@ -30,6 +30,8 @@ pub enum SOp {
     ListNamespaces,
     GetAll { ns: [u8; 32] },
     Reopen,
+    WipeReopen { latest: bool, bykey: bool },
+    Query { ns: [u8; 32], q: crate::c05::Q },
     Matches { policy: DownloadPolicy, key: Vec<u8> },
     FilterText { f: FilterKind },
     FilterParse { text: Vec<u8> },
@@ -224,6 +226,30 @@ impl Machine {
                 let t = String::from_utf8(text.clone()).expect("generator produces valid strings");
                 SRes::Filter(t.parse::<FilterKind>().ok())
             }
+            SOp::WipeReopen { latest, bykey } => {
+                let path = self.ts.path().expect("WipeReopen needs a file store");
+                self.ts.s().flush()?;
+                drop(self.ts.store.take());
+                {
+                    // what a database written by an older version looks like: the derived tables are missing
+                    let db = redb::Database::create(&path)?;
+                    let tx = db.begin_write()?;
+                    if *latest {
+                        tx.delete_table(redb::TableDefinition::<u64, u64>::new("latest-by-author-1"))?;
+                    }
+                    if *bykey {
+                        tx.delete_table(redb::TableDefinition::<u64, u64>::new("records-by-key-1"))?;
+                    }
+                    tx.commit()?;
+                }
+                self.ts.store = Some(iroh_docs::store::fs::Store::persistent(&path)?);
+                self.open.clear();
+                SRes::Unit
+            }
+            SOp::Query { ns, q } => {
+                let l = self.ts.s().get_many(NamespaceId::from(ns), crate::c05::to_query(q))?.collect::<anyhow::Result<Vec<_>>>()?;
+                SRes::Entries(l)
+            }
             SOp::Reopen => {
                 if self.ts.path().is_some() {
                     self.ts.s().flush()?;
@@ -251,6 +277,8 @@ pub fn filter_bytes(f: &FilterKind) -> &[u8] {
 pub fn csop(authors: &[Author], op: &SOp) -> String {
     let au = |i: &usize| n256(authors[*i].id().as_bytes());
     match op {
+        SOp::WipeReopen { latest, bykey } => format!("(SWipeReopen {} {})", cbool(*latest), cbool(*bykey)),
+        SOp::Query { ns, q } => format!("(SQuery {} {})", n256(ns), crate::c05::cq(q)),
         SOp::Matches { policy, key } => format!("(SMatches {} {})", cpolicy(policy), cbytes(key)),
         SOp::FilterText { f } => format!("(SFilterText {} {})", cfilter(f), cbool(std::str::from_utf8(filter_bytes(f)).is_ok())),
         SOp::FilterParse { text } => format!("(SFilterParse {})", cbytes(text)),
@@ -341,6 +369,8 @@ pub fn jsop(op: &SOp) -> String {
         SOp::ListNamespaces => "\"list_namespaces\"".into(),
         SOp::GetAll { ns } => format!("\"get_all {}\"", h4t(ns)),
         SOp::Reopen => "\"reopen\"".into(),
+        SOp::WipeReopen { latest, bykey } => format!("\"delete tables (heads={}, by-key index={}) and reopen\"", latest, bykey),
+        SOp::Query { ns, q } => format!("\"query {} {}\"", h4t(ns), format!("{:?}", q).replace('"', "'").replace('\\', "/")),
         SOp::Matches { policy, key } => format!("\"matches {} key={}\"", format!("{:?}", policy).replace('"', "'").replace('\\', "/"), hex::encode(key)),
         SOp::FilterText { f } => format!("\"filter_text {}\"", format!("{:?}", f).replace('"', "'").replace('\\', "/")),
         SOp::FilterParse { text } => format!("\"filter_parse hex:{}\"", hex::encode(text)),
